@@ -26,6 +26,9 @@ FIELDS = ['id', 'name', 'resource', 'estimate', 'spent', 'start', 'end', 'predec
 DEFAULT = ['id', 'name', 'resource', 'estimate', 'spent', 'start', 'end', 'predecessors']
 
 
+OWNER = {}     # id(task) -> WBS it is a member of, by reachability from the WBS's roots (not by what Task.wbs claims)
+
+
 def ref_cell(t, f, level):
     if f == 'name':
         return '   ' * level + (t.name if t.name is not None else '')
@@ -33,7 +36,7 @@ def ref_cell(t, f, level):
     def linked(x):
         if x is None:
             return ''
-        return f"{x.id}{'(external)' if x.wbs is not t.wbs else ''}"
+        return f"{x.id}{'(external)' if OWNER.get(id(x)) is not OWNER.get(id(t)) else ''}"
     if f == 'predecessors':
         return '[' + ','.join(linked(p) for p in t.predecessors) + ']'
     if f == 'successors':
@@ -136,6 +139,7 @@ def build_world(case):
     other = WBS()
     ext1 = Task(900, 'outside')            # detached external
     ext2 = other // Task(901, 'in other wbs')
+    b.other = other
     for i, kind in case['ext_links']:
         try:
             if kind == 'p1':
@@ -146,6 +150,19 @@ def build_world(case):
                 objs[i].successors.append(ext2)
         except RuntimeError:
             pass
+    if case.get('remove_branch') is not None:
+        # a branch leaves the WBS: links between it and the survivors now leave the WBS
+        cands = [o for o in objs if len(o.children) and o.wbs is b.wbs]
+        if cands:
+            victim = cands[case['remove_branch'] % len(cands)]
+            b.wbs.remove(victim)
+            b.removed = victim
+    for pc in case.get('print_colors') or []:
+        objs[pc[0] % len(objs)].print_color = pc[1]
+    OWNER.clear()
+    for w_ in (b.wbs, other):
+        for t_ in w_.tasks:
+            OWNER[id(t_)] = w_
     return b, objs
 
 
@@ -161,11 +178,22 @@ def judge(case, acc):
     b, objs = build_world(case)
     w = b.wbs
     tasks = list(w.tasks)
+    if not tasks:
+        if getattr(b, 'removed', None) is None or case['target'] != 'task':
+            acc.count('empty_wbs_skipped')
+            return
+        tasks = [b.removed] + list(b.removed.all_children)
     fields = case['fields']
     children = case['children']
     theme = case['theme']
     target = case['target']
-    if target == 'wbs':
+    if target == 'task' and getattr(b, 'removed', None) is not None and case['pick'][0] % 2 == 0:
+        t = b.removed
+        given = [t]
+        fn = lambda: t.print(fields, children, theme)  # noqa: E731
+        rp = lambda: repr(t)  # noqa: E731
+        tasks = [t]
+    elif target == 'wbs':
         given = list(w.roots)
         fn = lambda: w.print(fields, children, theme)  # noqa: E731
         rp = lambda: repr(w)  # noqa: E731
@@ -273,10 +301,13 @@ def gen_case(rnd):
         fields = rnd.sample(DEFAULT, len(DEFAULT))
     else:
         fields = rnd.sample(FIELDS, rnd.randint(1, 8))
-    theme = rnd.choice([None, {'header_color': '91m', 'level_colors': ['94m'] * rnd.randint(1, 7)}])
+    theme = rnd.choice([None, {'header_color': '91m', 'level_colors': ['94m'] * rnd.randint(1, 7)},
+                        {'header_color': None, 'level_colors': [rnd.choice([None, '96m']) for _ in range(rnd.randint(1, 4))]}])
     return {'kind': 'sheet', 'sched': sc, 'names': names, 'notes': notes, 'ext_links': ext, 'fields': fields,
             'children': rnd.random() < 0.65, 'theme': theme, 'target': rnd.choice(['wbs', 'task', 'list']),
-            'pick': [rnd.randrange(50) for _ in range(rnd.randint(0, 5))] or [0], 'usage': rnd.random() < 0.4}
+            'pick': [rnd.randrange(50) for _ in range(rnd.randint(0, 5))] or [0], 'usage': rnd.random() < 0.4,
+            'remove_branch': rnd.randrange(20) if rnd.random() < 0.25 else None,
+            'print_colors': [[rnd.randrange(20), rnd.choice(['', '93m', None])] for _ in range(rnd.randint(0, 2))] if rnd.random() < 0.3 else []}
 
 
 def run_shard(prop, tier, seed, shard, nshards, budget, acc):
